@@ -11,7 +11,7 @@ ID = 'C14'
 RULE = ('Hypothesis draws an ordered pair (column wavelet, row wavelet), mostly different wavelets of '
         'different lengths, the filter form (4-tuple, 2-tuple, name), mode (5), J in 1..3, non-square H x W '
         'incl. odd and shorter than one of the filters, N, C, content recipes. Oracles: pywt.wavedec2 / '
-        'waverec2 with one wavelet per axis (operator on basis inputs + dense inputs), the functional '
+        'waverec2 with one wavelet per axis (operator on basis inputs + dense inputs, a dense pyramid with one level given as None), the functional '
         'afb2d/sfb2d with the same four filters (J=1), and the transposition relation '
         'DWT[(a,b)](x) = swap_lh_hl(DWT[(b,a)](x^T))^T. Non-trivial = column wavelet != row wavelet. '
         'Distinct = configuration without seeds.')
@@ -179,6 +179,30 @@ def run_case(case):
     if not okc:
         mismatch('s', 'synthesis_operator', 'DWTInverse with (col=%s,row=%s) differs from pywt.waverec2 '
                  'per-axis: %s' % (wc, wr, core.first_mismatch(got, want, 1e-9 * g)))
+    # a None level behaves like zeros (on the signal extent), also with separate row / column filters
+    from pwv.props.c10 import ambiguous_none
+    jn = case['k'] % J
+    nmask = [1 if j == jn else 0 for j in range(J)]
+    if not (mode == 'periodization' and ambiguous_none(nmask, [axH, axW])):
+        dl = core.make(case['rx'], (case['N'], case['C']) + lo_shape)
+        dh = [core.make({**case['rx'], 'seed': case['rx']['seed'] + 1 + j}, (case['N'], case['C']) + s_)
+              for j, s_ in enumerate(hi_shapes)]
+        zh = [np.zeros_like(h) if nmask[j] else h for j, h in enumerate(dh)]
+        wantn = dwtu.ref_waverec2(dl, zh, refw, mode)
+        ok, outn = lib(inv, (torch.tensor(dl), [None if nmask[j] else torch.tensor(h) for j, h in enumerate(dh)]))
+        if not ok:
+            mismatch('s', 'synthesis_none_raise', 'DWTInverse with level %d given as None raised: %s' % (jn + 1, outn))
+        else:
+            gotn = dwtu.to_np(outn)
+            cmax = max([core.maxabs(dl)] + [core.maxabs(h) for h in zh])
+            if gotn.shape[-2] < H or gotn.shape[-1] < W:
+                mismatch('s', 'synthesis_none_shape', 'output %s smaller than the image %s' % (gotn.shape, (H, W)))
+            else:
+                okc, err = core.close(gotn[..., :H, :W], wantn[..., :H, :W], 1e-9 * max(g * cmax, 1e-300))
+                if not okc:
+                    mismatch('s', 'synthesis_none_values', 'DWTInverse (col=%s,row=%s) with level %d given as None differs from '
+                             'pywt.waverec2 with zeros: %s' % (wc, wr, jn + 1, core.first_mismatch(
+                                 gotn[..., :H, :W], wantn[..., :H, :W], 1e-9 * max(g * cmax, 1e-300))))
     if J == 1:
         f4 = _filters({**case, 'form': '4tuple'}, 'rec')
         t = [torch.tensor(yl[:, None])] + [torch.tensor(yh[0][:, None, i]) for i in range(3)]
